@@ -264,6 +264,7 @@ def run(scn):
             evs.append((key, val))
         dup_keys = len(set(kk for kk, _ in evs)) != len(evs)
         arg = evs if (scn.get('as') == 'list' or dup_keys) else dict(evs)
+        arg_before = list(arg) if isinstance(arg, list) else dict(arg)
         prun.spawn = T.SimSpawn
         w.begin_op(0)
         w.note('op', (0, 'run'))
@@ -403,6 +404,11 @@ def run(scn):
                 elif any(c[1] != c[3] for c in cblog):
                     out.append(Violation('C12.callback', 'event_count seen by callbacks %r is not the number of earlier events %r'
                                          % (counts, [c[3] for c in cblog]), None, det))
+        if events and not out:
+            same = (list(arg) == arg_before) if isinstance(arg, list) else (dict(arg) == arg_before and list(arg) == list(arg_before))
+            if not same:
+                out.append(Violation('C12.events_mutated', 'run() changed the events object it was given (a caller who keeps one table for '
+                                     'several run() calls gets a different table the second time)', None, {'stop': None}))
         if xa_bad and not out:
             out.append(Violation('C12.callback', 'a callback found extra_args=%r in the state dictionary, run() was given %r'
                                  % (xa_bad[0], scn['extra_args']), None, {'stop': None}))
